@@ -38,3 +38,7 @@ def prev_index(i, n):
 
 def bigger(p, q):
     return p if p > q else q
+
+
+def quarter_turns(angle):
+    return angle % 90 == 0
